@@ -248,7 +248,9 @@ def replay_member(sql, witness):
         for r in witness['db'].get(t, []):
             con.execute('INSERT INTO %s.%s VALUES (%s)' % (TINT[t], t, ', '.join('?' * len(cols))), r)
     try:
-        want = [tuple(r) for r in con.execute(sql).fetchall()]
+        # sqlite cannot run a parenthesised member of a set operation: same meaning as a derived table
+        from harness.c06lib import member_parens_to_derived
+        want = [tuple(r) for r in con.execute(member_parens_to_derived(sql)).fetchall()]
     except Exception as e:  # noqa
         return False, {'note': 'sqlite cannot run the original: %s' % e}
     # concrete twin of the plan: the symbolic interpreter with the database fixed to the witness (same code as the check),
@@ -334,7 +336,8 @@ def validate_member(sql, R, D, rnd, n=2):
             for r in data.get(t, []):
                 con.execute('INSERT INTO %s.%s VALUES (%s)' % (TINT[t], t, ', '.join('?' * len(cols))), r)
         try:
-            want = [tuple(r) for r in con.execute(sql).fetchall()]
+            from harness.c06lib import member_parens_to_derived
+            want = [tuple(r) for r in con.execute(member_parens_to_derived(sql)).fetchall()]
         except Exception:  # noqa
             return out
         out.append((sorted(map(repr, got)) == sorted(map(repr, want)), {'db': data, 'symrel': got, 'sqlite': want}))
